@@ -2,4 +2,4 @@ From Coq Require Import Extraction ExtrOcamlBasic.
 From OV Require Import Common.Base C06.Model.
 Extraction Language OCaml.
 Extraction "C06_model.ml" mkflags repaired defective lns_found def_restore def_rguard sess_restore mkorc mk_ipcp_cfg ipcp_req lcp_req ipv6cp_req
-  ipcp_input lcp_input ipv6cp_input ipeer0 lpeer0 sess_start sess_start_dns sess_restore_f with_refuse with_stage ipcp_req_c sess_step lsess0 lsess_restored lsess_step v6sess0 v6sess_step iid_from_mac iobj_step lobj_step v6obj_step lobj0 lcp_build v6_build build_confreq to4 to4o parse_wire serialize_options.
+  ipcp_input lcp_input ipv6cp_input ipeer0 lpeer0 sess_start sess_start_dns sess_restore_f with_refuse with_stage ipcp_req_c sess_step astep head_choice lsess0 lsess_restored lsess_step v6sess0 v6sess_step iid_from_mac iobj_step lobj_step v6obj_step lobj0 lcp_build v6_build build_confreq to4 to4o parse_wire serialize_options.
